@@ -22,7 +22,7 @@ use crate::compiler::frontend::{compile_bodyform, make_provides_set};
 use crate::compiler::gensym::gensym;
 use crate::compiler::inline::{replace_in_inline, synthesize_args};
 use crate::compiler::lambda::lambda_codegen;
-use crate::compiler::prims::{primapply, primcons, primquote};
+use crate::compiler::prims::{name_for_opcode, primapply, primcons, primquote};
 use crate::compiler::runtypes::RunFailure;
 use crate::compiler::sexp::{decode_string, printable, SExp};
 use crate::compiler::srcloc::Srcloc;
@@ -634,7 +634,7 @@ fn compile_call(
 
     match call.args[0].borrow() {
         BodyForm::Value(SExp::Integer(al, an)) => {
-            compile_atom_head(al.clone(), &u8_from_number(an.clone()))
+            compile_atom_head(al.clone(), &name_for_opcode(&compiler.prims, an))
         }
         BodyForm::Value(SExp::QuotedString(al, _, an)) => compile_atom_head(al.clone(), an),
         BodyForm::Value(SExp::Atom(al, an)) => compile_atom_head(al.clone(), an),
